@@ -50,7 +50,7 @@ func c03Queries(r *RNG, blks []Blk) []cid.Cid {
 		add(b.Cid)
 		dm, _ := mh.Decode(b.Cid.Hash())
 		if r.Chance(35) { // same digest under another hash code (identity / sha2-512 label)
-			add(rawCid(0x55, pick(r, []uint64{0x00, 0x12, 0x13}), dm.Digest))
+			add(c11RawCid(0x55, pick(r, []uint64{0x00, 0x12, 0x13}), dm.Digest))
 		}
 		if r.Chance(35) { // same multihash, other codec / version
 			add(cid.NewCidV1(pick(r, codecs), b.Cid.Hash()))
@@ -58,11 +58,11 @@ func c03Queries(r *RNG, blks []Blk) []cid.Cid {
 		if r.Chance(25) && len(dm.Digest) > 0 { // absent neighbour
 			d := append([]byte(nil), dm.Digest...)
 			d[r.Intn(len(d))] ^= 0x01
-			add(rawCid(0x55, dm.Code, d))
+			add(c11RawCid(0x55, dm.Code, d))
 		}
 	}
-	add(rawCid(0x71, 0x12, r.Bytes(32)))
-	add(rawCid(0x55, 0x00, nil))
+	add(c11RawCid(0x71, 0x12, r.Bytes(32)))
+	add(c11RawCid(0x55, 0x00, nil))
 	return qs
 }
 
